@@ -4,16 +4,17 @@ R16.1  decoding failures become ValueError: every exceptional exit of structure_
 R16.2  every descent of DataclassSerializer is guarded by the visited set (delegations to cattrs are unguarded)  [finding]
 R16.3  None stripping / dict conversion on every return path of the serialiser
 R16.4  the post-processor recurses with itself on containers (lists, dict values) so that every nested value is processed
+R16.8  the raw-dict fallback of union decoding applies to dict[str, Any] only (guard evaluated over {str, other} x {Any, other})
 R3.3/R3.4/R3.5 hook pairs inverse, rename plumbing, recursive registration (shared with C03)
 """
 from __future__ import annotations
 
 import ast
-from typing import Set
+from typing import List, Set, Tuple
 
 from rules import _converter as cv
 from sa.cfg import CFG
-from sa.model import full, AnalysisError, Repo, calls_in, dotted, norm, own_nodes
+from sa.model import full, AnalysisError, Repo, calls_in, dotted, norm, own_nodes, parent
 from sa.match import Locals, match
 from sa.report import Report
 
@@ -153,3 +154,131 @@ def run(repo: Repo, rep: Report, tier: str) -> None:
         rep.ok("R16.4", f"{utils.relpath}:_ensure_all_dicts dataclass branch", "a leftover dataclass instance re-enters the guarded serialiser with the same visited set", ead.loc(dcb[0]))
     else:
         rep.violation("R16.4", f"{utils.relpath}:_ensure_all_dicts dataclass branch", f"{ead.fq}|dataclass-branch", "leftover dataclass instances are not re-serialised with the shared visited set", ead.loc())
+
+    # ---------------------------------------------------------------- R16.8 the raw-dict fallback of unions applies to dict[str, Any] only
+    _dict_fallback_rule(repo, rep)
+
+
+class _T:
+    """symbolic type objects for the evaluation of the variant-classification test"""
+    def __init__(self, name: str):
+        self.name = name
+
+    def __repr__(self) -> str:
+        return self.name
+
+
+def _dict_fallback_rule(repo: Repo, rep: Report) -> None:
+    """In _structure_union a `dict[K, V]` member switches on "return the payload dict as it is".  That is only lossless for dict[str, Any];
+    for dict[str, Model] the values must be structured.  The guard of the flag assignment is evaluated (on its AST) for the four
+    combinations of K in {str, other} and V in {Any, other}."""
+    conv = repo.module("core.cattrs_converter")
+    su = conv.functions.get("_structure_union")
+    if su is None:
+        raise AnalysisError("anchor vanished: _structure_union")
+    L = Locals(su.node)
+    data_param = su.params[0] if su.params else "data"
+    # the flag: a local set to True somewhere and tested in `if <flag> ...: return <payload>`
+    flags = set()
+    for n in own_nodes(su.node):
+        if isinstance(n, ast.If) and any(isinstance(r, ast.Return) and isinstance(r.value, ast.Name) and r.value.id == data_param for r in n.body):
+            flags |= {x.id for x in ast.walk(n.test) if isinstance(x, ast.Name) and any(
+                k == "assign" and isinstance(v, ast.Constant) and v.value is True for k, v, _ in L.defs.get(x.id, []))}
+    rep.require(len(flags) == 1, f"R16.8: the raw-dict fallback flag of _structure_union was not found ({sorted(flags)})")
+    if len(flags) != 1:
+        return
+    flag = sorted(flags)[0]
+    sets = [n for n in own_nodes(su.node) if isinstance(n, ast.Assign) and isinstance(n.targets[0], ast.Name) and n.targets[0].id == flag
+            and isinstance(n.value, ast.Constant) and n.value.value is True]
+    STR, ANY, OTHER_K, OTHER_V = _T("str"), _T("Any"), _T("bytes"), _T("Model")
+
+    def ev(e: ast.AST, env: dict):
+        if isinstance(e, ast.Constant):
+            return e.value
+        if isinstance(e, ast.Name):
+            if e.id in env:
+                return env[e.id]
+            return {"str": STR, "Any": ANY, "dict": "dict-origin", "None": None}.get(e.id, _T(e.id))
+        if isinstance(e, ast.Tuple):
+            return tuple(ev(x, env) for x in e.elts)
+        if isinstance(e, ast.Call) and dotted(e.func) in ("get_args", "typing.get_args"):
+            return env["$args"]
+        if isinstance(e, ast.Call) and dotted(e.func) in ("get_origin", "typing.get_origin"):
+            return "dict-origin"
+        if isinstance(e, ast.Call) and dotted(e.func) == "len" and e.args:
+            return len(ev(e.args[0], env))
+        if isinstance(e, ast.Subscript) and isinstance(e.slice, ast.Constant):
+            return ev(e.value, env)[e.slice.value]
+        if isinstance(e, ast.BoolOp):
+            r = None
+            for v in e.values:
+                r = ev(v, env)
+                if isinstance(e.op, ast.And) and not r:
+                    return r
+                if isinstance(e.op, ast.Or) and r:
+                    return r
+            return r
+        if isinstance(e, ast.UnaryOp) and isinstance(e.op, ast.Not):
+            return not ev(e.operand, env)
+        if isinstance(e, ast.Compare) and len(e.ops) == 1:
+            a, b = ev(e.left, env), ev(e.comparators[0], env)
+            op = e.ops[0]
+            if isinstance(op, (ast.Eq, ast.Is)):
+                return a == b if not isinstance(a, _T) or not isinstance(b, _T) else a is b
+            if isinstance(op, (ast.NotEq, ast.IsNot)):
+                return not (a == b if not isinstance(a, _T) or not isinstance(b, _T) else a is b)
+            if isinstance(op, ast.In):
+                return a in b
+        raise AnalysisError(f"R16.8: cannot evaluate `{norm(e)[:60]}` in the variant classification")
+
+    for st in sets:
+        # statements of the enclosing branch that precede the assignment, and the chain of tests leading to it
+        chain: List[Tuple[ast.AST, bool]] = []
+        pre: List[ast.stmt] = []
+        child: ast.AST = st
+        p = parent(st)
+        while p is not None and p is not su.node:
+            if isinstance(p, ast.If):
+                in_body = any(child is b for b in p.body)
+                chain.append((p.test, in_body))
+                blk = p.body if in_body else p.orelse
+            else:
+                blk = getattr(p, "body", [])
+            if isinstance(blk, list) and child in blk:
+                pre = [x for x in blk[: blk.index(child)] if isinstance(x, (ast.Assign, ast.AnnAssign))] + pre
+            if isinstance(p, (ast.For, ast.While)):
+                break
+            child, p = p, parent(p)
+        verdict = {}
+        for k in (STR, OTHER_K):
+            for v in (ANY, OTHER_V):
+                env = {"$args": (k, v)}
+                ok = True
+                for t, pol in reversed(chain):
+                    # bind the assignments that precede (tuple unpacking included)
+                    for a in pre:
+                        tg = a.targets[0] if isinstance(a, ast.Assign) else a.target
+                        try:
+                            val = ev(a.value, env)
+                        except AnalysisError:
+                            continue
+                        if isinstance(tg, ast.Name):
+                            env[tg.id] = val
+                        elif isinstance(tg, ast.Tuple) and isinstance(val, tuple) and len(val) == len(tg.elts):
+                            for el, x in zip(tg.elts, val):
+                                if isinstance(el, ast.Name):
+                                    env[el.id] = x
+                    if any(isinstance(x, ast.Call) and dotted(x.func) in ("isinstance", "dataclasses.is_dataclass") for x in ast.walk(t)) or (
+                            isinstance(t, ast.Compare) and isinstance(t.ops[0], ast.Is) and "type(None)" in norm(t)):
+                        continue  # the earlier arms of the chain (None / dataclass members) do not concern dict members
+                    if bool(ev(t, env)) != pol:
+                        ok = False
+                verdict[(k.name, v.name)] = ok
+        sub = f"{conv.relpath}:_structure_union raw-dict fallback condition"
+        wrong = sorted(kv for kv, r in verdict.items() if r != (kv == ("str", "Any")))
+        if not wrong:
+            rep.ok("R16.8", sub, "the payload dict is passed through unchanged only for dict[str, Any]", su.loc(st))
+        else:
+            rep.violation("R16.8", sub, f"{su.fq}|dict-fallback|{wrong}",
+                          f"the 'return the raw dict' fallback is (not) taken for dict{wrong}: e.g. Optional[dict[str, Model]] comes back as plain dicts - "
+                          "the values are never structured and encoding them again fails", su.loc(st))
